@@ -21,6 +21,9 @@ UNIV = {
     "C": (5, [(hi, lo) for hi in (1, 5, 6, 7, 13, 30, 31) for lo in (3, 9)]),
     # 6-bit hi: sizes up to 2^6, three remainders per home slot
     "D": (6, [(hi, lo) for hi in (0, 8, 16, 24, 56) for lo in (1, 2, 3)]),
+    # large tables (other remainder typecodes): 16-bit remainders ("I") and 8-bit remainders ("B"); both table ends
+    "E": (16, [(hi, lo) for hi in (0, 1, 65535) for lo in (1, 65535)]),
+    "F": (24, [(hi, lo) for hi in (0, 1, 16777215) for lo in (1, 255)]),
 }
 
 
@@ -48,6 +51,9 @@ def cfg(univ, maxq, maxel, nparts, part, mode):
     hb, _ = UNIV[univ]
     inv = """INVARIANT TypeOK
 INVARIANT CountIsSize
+PROPERTY SetSemantics
+""" if hb > 8 else """INVARIANT TypeOK
+INVARIANT CountIsSize
 INVARIANT Fits
 INVARIANT LookupExact
 INVARIANT DecodeExact
@@ -66,6 +72,7 @@ PROPERTY SetSemantics
   MergeOps <- cMerge
   NPARTS = {nparts}
   PART = {part}
+  EmitLayout = {"TRUE" if hb <= 8 else "FALSE"}
 INIT Init
 NEXT Next
 VIEW View
@@ -85,6 +92,8 @@ def _alarm(signum, frame):
 
 def project(qf):
     n = qf.num_elements
+    if n > 1 << 12:
+        return (qf.quotient, qf.elements_added, bytes(qf._is_occupied.bitarray), bytes(qf._is_continuation.bitarray), bytes(qf._is_shifted.bitarray), bytes(qf._filter))
     return (
         qf.quotient,
         qf.elements_added,
@@ -219,12 +228,15 @@ class Ctx:
         # membership of every hash of the universe
         mem = [v for v in self.vals if qf.check_alt(v)]
         t.check(set(mem) == es, "C04", "C04.member", ENGINE, lambda: rp(observed_members=mem, expected_members=expS), sig)
-        try:
+        if qf.quotient >= 20:
+            hs = None
+        else:
+          try:
             hs = qf.get_hashes()
             t.check(sorted(hs) == expS, "C04", "C04.hashes", ENGINE, lambda: rp(observed_hashes=sorted(hs), expected_hashes=expS), sig)
-        except _Timeout:
+          except _Timeout:
             raise
-        except Exception as exc:  # noqa
+          except Exception as exc:  # noqa
             t.fail("C04", "C04.hashes", ENGINE, rp(raised=repr(exc), expected_hashes=expS), sig)
         cnt = qf.elements_added
         t.check(cnt == len(expS), "C04", "C04.count", ENGINE, lambda: rp(observed_count=cnt), sig)
@@ -234,7 +246,10 @@ class Ctx:
             t.add_drift(ENGINE, {"cfg": c, "history": hist, "op": o, "expected_q": exp["q"], "observed_q": qf.quotient})
         # non-trivial: a shifted slot (=> a shifted run / cluster) or an element stored past the wrap point
         n = qf.num_elements
-        if any(qf._is_shifted[i] for i in range(n)):
+        if n > 1 << 12:
+            if len(expS) >= 2:
+                t.nontriv(hash((c["q"], c["auto"], repr(hist), repr(o))))
+        elif any(qf._is_shifted[i] for i in range(n)):
             t.nontriv(hash((c["q"], c["auto"], repr(hist), repr(o))))
         if o[0] in ("rem", "rsz", "mrg"):
             if t.focus == "C14":
@@ -260,7 +275,9 @@ class Ctx:
             t.extra["query_battery_raised"] = t.extra.get("query_battery_raised", 0) + 1
         after = project(qf)
         t.check(before == after, "C19", "C19.qf_queries_unchanged", ENGINE, lambda: rp(before=before, after=after), {"structure": "qf"})
-        if any(before[4]):
+        if isinstance(before[4], bytes):
+            t.nontriv(hash(before[4])) if before[1] > 0 else None
+        elif any(before[4]):
             t.nontriv(hash(repr(before)))
         elif before[1] > 0 and t.focus == "C19":
             t.nontriv(hash(repr(before)))
@@ -281,6 +298,8 @@ def profiles(tier, light=False):
             dict(univ="A", q0s=[3], autos=[False, True], maxq=4, maxel=3, rsz=[0, 2, 3, 4], merges=mA, nparts=1),
             dict(univ="B", q0s=[3], autos=[False], maxq=3, maxel=8, rsz=[0, 3], merges=mB, nparts=1),
             dict(univ="C", q0s=[3], autos=[False, True], maxq=4, maxel=3, rsz=[0, 3, 4], merges=mC, nparts=1),
+            dict(univ="E", q0s=[16], autos=[False], maxq=16, maxel=3, rsz=[16], merges=[], nparts=1),
+            dict(univ="F", q0s=[24], autos=[False], maxq=24, maxel=2, rsz=[], merges=[], nparts=1),
         ]
     return [
         dict(univ="A", q0s=[3], autos=[False], maxq=3, maxel=8, rsz=[0, 3], merges=mA, nparts=12),
@@ -288,6 +307,8 @@ def profiles(tier, light=False):
         dict(univ="B", q0s=[3], autos=[False, True], maxq=4, maxel=9, rsz=[0, 3, 4], merges=mB, nparts=8),
         dict(univ="C", q0s=[3, 4], autos=[False, True], maxq=5, maxel=6, rsz=[0, 3, 4, 5], merges=mC, nparts=12),
         dict(univ="D", q0s=[3, 5], autos=[False, True], maxq=6, maxel=7, rsz=[0, 3, 4, 5, 6], merges=mD, nparts=8),
+        dict(univ="E", q0s=[16], autos=[False, True], maxq=16, maxel=5, rsz=[16], merges=[], nparts=2),
+        dict(univ="F", q0s=[24], autos=[False], maxq=24, maxel=4, rsz=[], merges=[], nparts=2),
     ]
 
 
